@@ -181,8 +181,7 @@ def handlers : List (String × Handler) := [
       let data ← getPairs sj "data"
       match ← getReqs sj "request" with
       | [q] => pure (⟨data, ← getInt sj "nch", q.rs, q.re, q.cs, q.ce, q.asIdx, ← getBool sj "refuses",
-                      (match getBool sj "labelmap" with | .ok b => b | .error _ => false),
-                      (match getBool sj "mid_iteration" with | .ok b => b | .error _ => false)⟩ : ChanRead)
+                      (match getBool sj "labelmap" with | .ok b => b | .error _ => false)⟩ : ChanRead)
       | _ => throw "request must be a one-element list")
     match tiledSegTable (some 0) (segs.zip ms) R C tr tc full omitE with
     | .error e => pure (Json.mkObj [("err", Json.str e.toString)])
